@@ -18,7 +18,7 @@ RULE = ("unit: scripted Uint32 draws (db.SetRandSourceForVerif) and sequences of
         "the model on the ranks of the float64 keys. e2e: a generated data set (weights incl. 0 and 2^32-1, records tagged with "
         "three locations and untagged, one address declared twice) compiled with the real cdb / rocksdb v1 / rocksdb v2 compilers, "
         "served in process by FBDNSDB; A, AAAA, ANY queries with max answer unset and 1..8 from clients in every location, NS and MX "
-        "queries and a referral for the additional section: every response checked for subset / no repetition (records identified "
+        "queries and referrals for the additional section (targets named by one record, and the same v4-only / v6-only / dual-stack host named by 2 and 3 MX records, two NS records sharing one glue host, a name that is its own MX target queried with MX and ANY): every response checked for subset / no repetition (records identified "
         "by address and TTL) / no weight 0 / size = min(max, positive-weight visible records) / NOERROR when the name exists. "
         "chi: 20000 draws of the real locked generator (one goroutine, four goroutines, through the handler), support only. "
         "non-trivial = distinct (max, candidate list) with at least 2 address candidates, or distinct e2e query with candidates")
@@ -33,7 +33,7 @@ TRUSTED_BASE = [
     "mutex-protected shared generator gives each query independent draws - none of that is proved; the chi-square runs are support only",
     "e2e model check uses a hypothetical key assignment (only the sizes of answer / additional section and NXDOMAIN are compared); the "
     "harness computes the records visible to a client from its own copy of the generated data (location = the client's subnet)",
-    "not modelled: the wildcard walk of FindAnswer beyond 'first level with a record' (C02), HasRecord-based want4/want6 (always true in the generated queries)",
+    "not modelled: the wildcard walk of FindAnswer beyond 'first level with a record' (C02); HTTPS targets of AdditionalSectionForRecords (same code path as NS/MX, not generated)",
 ]
 ASSUMPTIONS = ["key order is a strict order in which a key that is not > 0 lies below every key that is (float64 keys in [0,1], no NaN)",
                "candidates are distinct records (NoDup of payloads)", "max >= 1 (max <= 0 serves nothing: separate theorem)",
@@ -75,9 +75,14 @@ def to_coq(c):
     rcode = c.get("rcode", 0)
     if rcode < 0:
         rcode = 99
-    return "mk %s %s %s %s %s %s %s %s %s %s %s %s %s" % (
+    trip = lambda l: clist(["(%s,%s,%s)" % (cN(t[0]), cN(t[1]), cN(t[2])) for t in l])
+    msg = _pairs(c.get("msg") or [])
+    targets = clist([cpair(cN(t["name"]), trip(t["cands"])) for t in c.get("targets") or []])
+    extra = trip(c.get("extra") or [])
+    return "mk %s %s %s %s %s %s %s %s %s %s %s %s %s %s %s %s %s" % (
         kind, cZ(c.get("max", 1)), cands, steps, _ids(c.get("out4") or []), _ids(c.get("out6") or []),
         cbool(c.get("weighted", False)), cbool(c.get("keys_agree", True)), cN(qtype), groups, cN(rcode),
+        msg, targets, extra, _ids(c.get("msgids") or []),
         _ids(c.get("chi_w") or []), _ids(c.get("chi_obs") or []))
 
 
